@@ -45,7 +45,7 @@ package requestcontext
 //@ func (*RequestContext).Header
 //@   props C13
 //@   ensures canonicalKey(name) == "Host" ==> ret0 == old(r.req.Host)
-//@   assert at call Values#1: callarg0 == r.req.Header && callarg1 == canonicalKey(name)
+//@   assert at call Values#1@bb579c19.1: callarg0 == r.req.Header && callarg1 == canonicalKey(name)
 
 // the body is read (once) whenever the request carries one, whatever its declared length
 //@ func (*RequestContext).Body
